@@ -941,31 +941,43 @@ def mutate(ts, doc, rng, name=None):
 # ---------------------------------------------------------------------------------------------------------
 # G1: pool configurations of spec/gql/Gen_ValDoc.tla
 BASE = {"MaxNodes": 2, "MaxSecs": 1, "MaxAlias": 0, "MaxArgs": 0, "MaxDirs": 0, "MaxVars": 0, "OpHeads": ["query:"], "FragNames": [],
-        "Fields": [], "Conds": [], "Spreads": [], "ArgPool": [], "DirPool": [], "VarPool": []}
+        "Fields": [], "Conds": [], "Spreads": [], "ArgPool": [], "DirPool": [], "VarPool": [], "OpenOnly": [], "LeafOnly": []}
+
+ARGS_IN = ["i=obj", "i=objnob", "i=objunk", "i=objbad", "i=objdup", "i=objdupbad", "i=objdupgood", "i=int1", "i=l1", "i=obj$v", "i=obj$vbad", "i=objnbad", "i=objdnull", "i=objfull", "i=objn"]
+ARGS_LIST = ["l=l1", "l=int1", "l=lstr", "l=str", "l=lnull", "l=null", "l=l$v", "l=l$vstr", "l=$v", "l=lobj", "l=lobj1", "l=obj", "l=lempty"]
+VARS_ALL = ["v|Int||", "v|Int!||", "v|Int|int1|", "v|Int|null|", "v|Int|str|", "v|[Int]||", "v|[Int!]!||", "v|[Int]|l1|", "v|[Int]|int1|", "v|String||", "v|Color|RED|", "v|Color|sRED|", "v|Color|PURPLE|",
+            "v|In||", "v|In|obj|", "v|In|int1|", "v|In|objnob|", "v|A||", "v|Nope||", "v|[Nope]|l1|", "v|[Nope]!|int1|", "v|[Nope]|lempty|", "v|[Nope]|null|", "v|Nope!|int1|", "v|Float||", "v|Boolean!||", "v|ID||"]
+DIRS_ALL = ["skip(if=true)", "skip", "skip(if=$v)", "include(if=int1)", "include(if=null)", "nope", "deprecated", "tag(v=int1)", "skip(if=true;zz=int1)", "skip(if=true;if=false)"]
 
 
 def g1_configs(quick):
-    """pool configurations of Gen_ValDoc.tla, each aimed at a group of rules"""
+    """pool configurations of Gen_ValDoc.tla, each aimed at a group of rules (quick: small budgets, thorough: one more node / bigger pools)"""
+    q = quick
     c = {}
-    c["shape"] = dict(BASE, MaxNodes=3, MaxAlias=1, Fields=["id", "val", "a", "node", "u", "nope", "__typename"],
-                      Conds=["A", "B", "C", "Node", "U", "Int", "Nope"] if not quick else ["A", "C", "Node", "U", "Int", "Nope"])
-    c["merge"] = dict(BASE, MaxNodes=4 if quick else 5, MaxAlias=2, Fields=["u", "val", "w"] if quick else ["u", "val", "w", "id"], Conds=["A", "B"] if quick else ["A", "B", "Node"])
-    c["args"] = dict(BASE, MaxNodes=2 if quick else 2, MaxArgs=2, MaxVars=1, OpHeads=["query:Q"],
-                     Fields=["fi", "fr", "fd", "fe", "fin", "fl", "fli", "f2", "nope"],
-                     ArgPool=["x=int1", "x=str", "x=null", "x=$v", "y=str", "zz=int1", "e=RED", "e=PURPLE", "e=sRED", "e=int1",
-                              "i=obj", "i=objnob", "i=objunk", "i=objbad", "i=objdup", "i=objdupbad", "i=objdupgood", "i=int1", "i=l1", "i=obj$v", "i=obj$vbad", "i=objnbad", "i=objdnull",
-                              "l=l1", "l=int1", "l=lstr", "l=lnull", "l=l$v", "l=l$vstr", "l=$v", "l=lobj", "l=lobj1", "l=obj"],
-                     VarPool=["v|Int||", "v|Int!||", "v|[Int!]||", "v|String||"])
-    c["dirs"] = dict(BASE, MaxNodes=2, MaxDirs=2, MaxVars=1, OpHeads=["query:Q", "mutation:M"], Fields=["n", "a", "id", "__typename"], Conds=["A"], Spreads=[],
-                     DirPool=["skip(if=true)", "skip", "skip(if=$v)", "include(if=int1)", "include(if=null)", "nope", "deprecated", "tag(v=int1)", "skip(if=true;zz=int1)", "skip(if=true;if=false)"],
-                     VarPool=["v|Boolean!||", "v|Boolean||", "v|Boolean|true|", "v|Int||", "v|Boolean!||nope", "v|Boolean!||skip(if=true)"])
-    c["vars"] = dict(BASE, MaxNodes=2, MaxArgs=2, MaxVars=2, OpHeads=["query:Q"], Fields=["fi", "fr", "fd", "fl", "fin", "fe"],
-                     ArgPool=["x=$v", "x=$w", "x=$zz", "l=$v", "l=l$v", "i=$v", "i=obj$v", "e=$v", "x=int1"],
-                     VarPool=["v|Int||", "v|Int!||", "v|Int|int1|", "v|Int|null|", "v|Int|str|", "v|[Int]||", "v|[Int!]!||", "v|String||", "v|Color|RED|", "v|Color|sRED|", "v|In||", "v|In|obj|", "v|In|int1|",
-                              "v|A||", "v|Nope||", "v|[Nope]|l1|", "v|[Nope]|lempty|", "v|Nope!|int1|", "w|Int||", "v|Float||"])
-    c["frags"] = dict(BASE, MaxNodes=4 if quick else 5, MaxSecs=3, Fields=["a", "id", "c"], Conds=["A", "C", "Int", "Nope", "Query"], FragNames=["F1", "F2"], Spreads=["F1", "F2", "Nope"])
-    c["ops"] = dict(BASE, MaxNodes=3, MaxSecs=2, MaxAlias=1, OpHeads=["query:", "query:Q", "query:R", "mutation:Q", "subscription:S", "subscription:"],
-                    Fields=["n", "tick", "tock", "bump", "__typename", "id"], Conds=["Subscription"] if quick else ["Subscription", "A"])
+    c["shape"] = dict(BASE, MaxNodes=3 if q else 4, MaxAlias=0 if q else 1, Fields=["id", "a", "u", "nope", "__typename"] if q else ["id", "val", "a", "node", "u", "nope", "__typename"],
+                      Conds=["A", "C", "Int", "Nope"] if q else ["A", "B", "C", "Node", "U", "Int", "Nope"])
+    c["merge"] = dict(BASE, MaxNodes=4 if q else 5, MaxAlias=2, Fields=["node", "id", "name"], Conds=["A"] if q else ["A", "B"], OpenOnly=["node"], LeafOnly=["id", "name"])
+    c["merge2"] = dict(BASE, MaxNodes=4 if q else 5, MaxAlias=1 if q else 2, MaxArgs=2, Fields=["a", "echo", "val"], Conds=[] if q else ["A"], OpenOnly=["a"], LeafOnly=["echo", "val"], ArgPool=["x=int1", "x=int2"])
+    c["args"] = dict(BASE, MaxNodes=1 if q else 2, MaxArgs=2, MaxVars=1, OpHeads=["query:Q"], Fields=["fi", "fr", "fd", "f2", "nope"], LeafOnly=["fi", "fr", "fd", "f2", "nope"],
+                     ArgPool=["x=int1", "x=str", "x=null", "x=$v", "y=str", "zz=int1"], VarPool=["v|Int||", "v|Int!||", "v|String||"])
+    c["argsin"] = dict(BASE, MaxNodes=1, MaxArgs=1 if q else 2, MaxVars=1, OpHeads=["query:Q"], Fields=["fe", "fin", "fli"], LeafOnly=["fe", "fin", "fli"],
+                       ArgPool=["e=RED", "e=PURPLE", "e=sRED", "e=sPURPLE", "e=int1", "e=$v"] + ARGS_IN + ["l=lobj", "l=lobj1", "l=obj"], VarPool=["v|Int||", "v|Color||"] if q else ["v|Int||", "v|Color||", "v|In||", "v|String||"])
+    c["argslist"] = dict(BASE, MaxNodes=1, MaxArgs=1 if q else 2, MaxVars=1, OpHeads=["query:Q"], Fields=["fl", "fln"], LeafOnly=["fl", "fln"], ArgPool=ARGS_LIST,
+                         VarPool=["v|Int||", "v|[Int!]||"] if q else ["v|Int||", "v|Int!||", "v|[Int!]||", "v|[Int]||", "v|[Int]!||", "v|String||"])
+    c["dirs"] = dict(BASE, MaxNodes=2, MaxDirs=2, MaxVars=1, OpHeads=["query:Q"] if q else ["query:Q", "mutation:M"], Fields=["n", "__typename"], LeafOnly=["n", "__typename"], Conds=["Query"],
+                     DirPool=DIRS_ALL[:7] if q else DIRS_ALL, VarPool=["v|Boolean!||", "v|Int||"] if q else ["v|Boolean!||", "v|Boolean||", "v|Boolean|true|", "v|Int||"])
+    c["vardirs"] = dict(BASE, MaxNodes=1, MaxDirs=1, MaxVars=1, OpHeads=["query:Q"], Fields=["n", "fb"], LeafOnly=["n", "fb"], MaxArgs=1, ArgPool=["b=$v"],
+                        VarPool=["v|Boolean||", "v|Boolean||nope", "v|Boolean||skip(if=true)", "v|Boolean||skip(if=true)+skip(if=true)", "v|Boolean||nope+nope", "v|Boolean||deprecated", "v|Boolean||tag(v=int1)+tag(v=int1)"],
+                        DirPool=["skip(if=$v)"])
+    c["vars"] = dict(BASE, MaxNodes=1 if q else 2, MaxArgs=1, MaxVars=1, OpHeads=["query:Q"], Fields=["fi", "fr", "fd", "fl", "fin", "fe"], LeafOnly=["fi", "fr", "fd", "fl", "fin", "fe"],
+                     ArgPool=["x=$v", "x=$zz", "l=$v", "l=l$v", "i=$v", "i=obj$v", "e=$v", "x=int1"], VarPool=VARS_ALL)
+    c["vars2"] = dict(BASE, MaxNodes=2, MaxArgs=2, MaxVars=2, OpHeads=["query:Q"], Fields=["fi", "f2"], LeafOnly=["fi", "f2"], ArgPool=["x=$v", "x=$w", "y=$w", "x=int1"] if q else ["x=$v", "x=$w", "y=$w", "y=$v", "x=int1"],
+                      VarPool=["v|Int||", "w|String||", "w|Int||"] if q else ["v|Int||", "v|String||", "w|String||", "w|Int||"])
+    c["frags"] = dict(BASE, MaxNodes=3 if q else 4, MaxSecs=3, Fields=["n"], LeafOnly=["n"], Conds=["Query", "A", "Nope"] if q else ["Query", "A", "Int", "Nope"], FragNames=["F1", "F2"], Spreads=["F1", "F2", "Nope"])
+    c["fragvars"] = dict(BASE, MaxNodes=3, MaxSecs=2 if q else 3, MaxArgs=1, MaxVars=1, OpHeads=["query:Q"] if q else ["query:Q", "query:R"], Fields=["fi"], LeafOnly=["fi"], Conds=["Query"], FragNames=["F1"], Spreads=["F1"],
+                         ArgPool=["x=$v", "x=int1"] if q else ["x=$v", "x=int1", "x=$w"], VarPool=["v|Int||", "v|String||"])
+    c["ops"] = dict(BASE, MaxNodes=3, MaxSecs=2, MaxAlias=1, OpHeads=["query:", "query:Q", "subscription:S", "mutation:Q"] if q else ["query:", "query:Q", "query:R", "mutation:Q", "subscription:S", "subscription:"],
+                    Fields=["tick", "n"] if q else ["n", "tick", "bump", "__typename"], LeafOnly=["tick", "n", "bump", "__typename"], Conds=[] if q else ["Subscription"])
     return c
 
 
@@ -980,5 +992,3 @@ def write_cfg(path, conf, invariants):
         f.write("INIT Init\nNEXT Next\n")
         for i in invariants:
             f.write("INVARIANT %s\n" % i)
-
-
